@@ -2,7 +2,7 @@
 Model: lean/EaselModel/Sqio/*, theorems: Props/C02.lean, harness: h_sqio.c (shared with C04, C07).
 The harness-side monitor (status in the documented set, message on eslEFORMAT, well-formed ESL_SQ, no exception, no sanitizer
 report, no leak) runs for every format selection; the exact model comparison runs for the formats inside the model."""
-import os
+import os, re
 from vlib.engine import Prop, Failure
 from props import sqio_common as S
 
@@ -41,8 +41,14 @@ class C02(Prop):
     def canonical(self, line):
         return S.canonical(line)
 
+    MSA_LINE = re.compile(r"^eformat line=-?\d+ ")
+
     def compare(self, ctx, case, impl_out, model_out):
-        return S.compare(self, case, impl_out, model_out)
+        # a parse error inside an alignment file: the line number is the msafile module's (afp->linenumber), which the C01 reader
+        # models do not carry; the model prints `line=*` there and the implementation's number is not compared
+        impl = [self.MSA_LINE.sub("eformat line=* ", a) if i < len(model_out) and model_out[i].startswith("eformat line=* ") else a
+                for i, a in enumerate(impl_out)]
+        return S.compare(self, case, impl, model_out)
 
     def seeds(self, ctx):
         d = os.path.join(ctx.src, "formats")
@@ -65,10 +71,11 @@ class C02(Prop):
         raw = [b"", b"\n", b">", b">\n", b"> \n", b">a", b">a\n", b">a\nAC-GT\n", b">a\nAC\x00GT\n", b">a\x00b d\x00e\nAC\n", b">a\nAC\xe9\n", b"AC\n>a\nAC\n", b"\r\r>a\rAC\r>b\rGT",
                b">a\n>b\n>c", b">a d\x01e\nAC", b" \t\n\x0b\x0c\r", b">a\nAC>b\nGT\n", b">a\n1 ACGT\n", b">a\nAC*GT*\n", b"\n\n\nLOCUS   ", b"ID   ", b"LOCUS   x\nORIGIN\n//\n",
                b">" + b"n" * 5000 + b" " + b"d" * 5000 + b"\nAC\n"]
-        # witness of the known finding: reverse-strand windows over an alignment file
-        cs.append({"name": "known-msa-reverse-window", "sticky": 1, "known_key": "C02:readwindow-msa:reverse-strand-coordinates",
+        # regression (46b16f4): reverse-strand windows over an alignment file (was known finding C02:readwindow-msa:reverse-strand-coordinates)
+        cs.append({"name": "msa-reverse-window", "sticky": 1,
                    "ops": ["file ext=sto hex=" + hx(b"# STOCKHOLM 1.0\n#=GF ID ali0\ns1 ACGU-ACGUAC\ns2 AAAAAAAAAAA\n//\n"), "open fmt=stockholm abc=rna B=4096",
-                           "readwin C=0 W=100", "readwin C=0 W=100", "readwin C=0 W=-3"]})
+                           "readwin C=0 W=100", "readwin C=0 W=100", "readwin C=0 W=-3", "readwin C=0 W=-3", "readwin C=2 W=-3", "readwin C=2 W=-3", "readwin C=2 W=-3", "reuse",
+                           "readwin C=1 W=4", "readwin C=1 W=4", "readwin C=1 W=4", "readwin C=1 W=4", "readwin C=3 W=-5", "readwin C=3 W=-5", "readwin C=3 W=-5", "readwin C=3 W=-5", "reuse", "readwin C=0 W=1"]})
         # regressions: end_daemon / skip_fasta at a block end (b20bbb4 + skip_fasta guard), skip_whitespace on a byte >= 0x80
         cs.append({"name": "daemon-block-end", "sticky": 1, "ops": ["file ext=dat hex=" + hx(b">a\nACGAC\n//\n"), "open fmt=daemon abc=text B=10", "read", "read", "close",
                    "file ext=dat hex=" + hx(b">a\nAC\n//\n>b\nGG\n//\n"), "open fmt=daemon abc=text B=3", "readseq", "readseq", "readseq", "close",
